@@ -11,7 +11,7 @@ LEVEL = "model_checking"
 
 
 def run(ctx):
-    res = encpipe.run(ctx, c04.QUICK if ctx.quick else c04.THOROUGH, dump_every=2)
+    res = encpipe.run(ctx, c04.QUICK if ctx.quick else c04.THOROUGH, dump_every=2 if ctx.quick else 8)
     c04.report(ctx, res, want_go=False, want_tlc=True)
     # API failures make the produced message unusable too
     for m in res["go"]:
